@@ -663,8 +663,8 @@ probe_short(decoder_t *d, char *out, size_t n, int setgram)
         l += snprintf(out + l, n - l, " || cmn: %s", rep ? rep : "NULL");
     /* the whole recording streamed in TWO calls, a short one and a very long one (more frames than any of the decoder's rings holds
      * on a fresh decoder), normalisation fixed */
-    if (decoder_set_cmn(d, CMN_FIXED) < 0 || decoder_start_utt(d) < 0 || decoder_process_int16(d, AUD_P, 2048, 0, 0) < 0
-        || decoder_process_int16(d, AUD_P + 2048, N_P - 2048, 0, 0) < 0 || decoder_end_utt(d) < 0)
+    if (decoder_set_cmn(d, CMN_FIXED) < 0 || decoder_start_utt(d) < 0 || decoder_process_int16(d, AUD_ALL, 2048, 0, 0) < 0
+        || decoder_process_int16(d, AUD_ALL + 2048, N_ALL - 2048, 0, 0) < 0 || decoder_end_utt(d) < 0)
         return -14;
     if (l + 8 < n) {
         l += snprintf(out + l, n - l, " || BIG: ");
